@@ -13,12 +13,14 @@ import (
 
 // ynode is a marshalled YAML document kept as a tree whose scalar leaves may be symbolic.
 type ynode struct {
-	kind  int // 0 null, 1 scalar, 2 seq, 3 map
-	tag   string
-	val   Value // scalar: string (str) or int64/uint64/bool/float64 or *smt.Term / *SymStr
-	valT  types.Type
-	items []*ynode
-	keys  []string
+	kind    int // 0 null, 1 scalar, 2 seq, 3 map
+	style   yaml.Style
+	tag     string // "" on a scalar: hand-built untagged node, resolved from its text when read back
+	val     Value  // scalar: string (str) or int64/uint64/bool/float64 or *smt.Term / *SymStr
+	valT    types.Type
+	items   []*ynode
+	keys    []string
+	keyTags []string // nil, or per key the tag of a hand-built key node ("" = untagged)
 }
 
 type ydoc struct {
@@ -103,6 +105,9 @@ func (e *Engine) ymarshal(t types.Type, v Value, depth int) (*ynode, Value) {
 		p, _ := v.(*Value)
 		if p == nil {
 			return &ynode{kind: 0}, nil
+		}
+		if types.Identical(pt.Elem(), e.yamlNodeType()) {
+			return e.ymarshalNode(p, depth), nil
 		}
 		if m := e.hasMarshalYAML(t); m != nil {
 			return e.ymarshalVia(m, v, depth)
@@ -207,6 +212,76 @@ func (e *Engine) ymarshal(t types.Type, v Value, depth int) (*ynode, Value) {
 	return nil, nil
 }
 
+// ymarshalNode converts a yaml.Node built by the program (e.g. returned from MarshalYAML) into
+// the tree. Tags are kept as written: an untagged scalar is printed plain by the library and
+// resolved again from its text by whoever reads the document.
+func (e *Engine) ymarshalNode(p *Value, depth int) *ynode {
+	if depth > 50 {
+		e.abort(abortEngine, "yaml marshal: node nesting too deep")
+	}
+	st := under(e.yamlNodeType()).(*types.Struct)
+	sv := (*p).(structV)
+	var kind yaml.Kind
+	var style yaml.Style
+	var tag string
+	var val Value = ""
+	var content []Value
+	for i := 0; i < st.NumFields(); i++ {
+		switch st.Field(i).Name() {
+		case "Kind":
+			kind = yaml.Kind(asU64(sv[i]))
+		case "Style":
+			style = yaml.Style(asU64(sv[i]))
+		case "Tag":
+			t, ok := sv[i].(string)
+			if !ok {
+				e.abort(abortEngine, "yaml marshal: symbolic node tag")
+			}
+			tag = t
+		case "Value":
+			val = sv[i]
+		case "Content":
+			content = sv[i].(sliceV).a
+		}
+	}
+	child := func(c Value) *ynode {
+		cp, _ := c.(*Value)
+		if cp == nil {
+			e.nilDeref()
+		}
+		return e.ymarshalNode(cp, depth+1)
+	}
+	switch kind {
+	case yaml.ScalarNode, 0:
+		return &ynode{kind: 1, tag: tag, style: style, val: val, valT: types.Typ[types.String]}
+	case yaml.SequenceNode:
+		n := &ynode{kind: 2}
+		for _, c := range content {
+			n.items = append(n.items, child(c))
+		}
+		return n
+	case yaml.MappingNode:
+		n := &ynode{kind: 3}
+		for i := 0; i+1 < len(content); i += 2 {
+			k := child(content[i])
+			ks, ok := k.val.(string)
+			if k.kind != 1 || !ok {
+				e.abort(abortEngine, "yaml marshal: node mapping with a non-scalar or symbolic key")
+			}
+			n.keys = append(n.keys, ks)
+			n.keyTags = append(n.keyTags, k.tag)
+			n.items = append(n.items, child(content[i+1]))
+		}
+		return n
+	case yaml.DocumentNode:
+		if len(content) == 1 {
+			return child(content[0])
+		}
+	}
+	e.abort(abortEngine, "yaml marshal: node kind not modelled")
+	return nil
+}
+
 func (e *Engine) ymarshalVia(m *ssa.Function, recv Value, depth int) (*ynode, Value) {
 	r := e.call(m, []Value{recv}, nil).(tuple)
 	if er, ok := r[1].(iface); ok && er.t != nil {
@@ -241,7 +316,7 @@ func (n *ynode) native() *yaml.Node {
 	case 0:
 		return &yaml.Node{Kind: yaml.ScalarNode, Tag: "!!null", Value: "null"}
 	case 1:
-		out := &yaml.Node{Kind: yaml.ScalarNode, Tag: n.tag}
+		out := &yaml.Node{Kind: yaml.ScalarNode, Tag: n.tag, Style: n.style}
 		switch x := n.val.(type) {
 		case string:
 			out.Value = x
@@ -258,7 +333,11 @@ func (n *ynode) native() *yaml.Node {
 	default:
 		out := &yaml.Node{Kind: yaml.MappingNode, Tag: "!!map"}
 		for i, c := range n.items {
-			out.Content = append(out.Content, &yaml.Node{Kind: yaml.ScalarNode, Tag: "!!str", Value: n.keys[i]}, c.native())
+			kt := "!!str"
+			if n.keyTags != nil {
+				kt = n.keyTags[i]
+			}
+			out.Content = append(out.Content, &yaml.Node{Kind: yaml.ScalarNode, Tag: kt, Value: n.keys[i]}, c.native())
 		}
 		return out
 	}
@@ -393,6 +472,24 @@ func (e *Engine) ydecodeTree(n *ynode, t types.Type, dst *Value, errs *[]string)
 		case isStringT(u):
 			switch x := n.val.(type) {
 			case string, *SymStr:
+				if ss, sym := x.(*SymStr); sym && n.tag == "" && n.style&(yaml.DoubleQuotedStyle|yaml.SingleQuotedStyle|yaml.LiteralStyle|yaml.FoldedStyle) == 0 {
+					// an untagged plain scalar is resolved from its text when read back: the
+					// spellings of null decode to the empty string, everything else (numbers and
+					// booleans included) decodes into a string target as the text itself
+					for _, nul := range []string{"~", "null", "Null", "NULL"} {
+						if len(nul) != len(ss.b) {
+							continue
+						}
+						eq := e.ctx.True
+						for i := range ss.b {
+							eq = e.ctx.And(eq, e.ctx.Eq(ss.b[i], e.ctx.BVConst(8, uint64(nul[i]))))
+						}
+						if e.branch(e.lowerBool(eq)) {
+							e.set(dst, "")
+							return iface{}
+						}
+					}
+				}
 				e.set(dst, x)
 				return iface{}
 			}
